@@ -804,6 +804,8 @@ class Interp:
         if isinstance(v, ClassRef):
             if name == "__name__":
                 return v.qualname.rsplit(".", 1)[-1]
+            if name == "__module__":
+                return v.qualname.rsplit(".", 1)[0]
             meth = self.find_method(v, name)
             if meth is not None:
                 kind, target = meth
